@@ -1,6 +1,6 @@
 (* Case-file processing shared by all modelrun commands.  A case file has one line per case:
    (case <k> <input> <rust-output>).  A command maps it to one verdict line per case. *)
-From Coq Require Import List ZArith NArith String Bool.
+From Coq Require Import List ZArith NArith String Ascii Bool.
 From SCC Require Import Base.Sexp.
 Import ListNotations.
 Open Scope string_scope.
@@ -32,9 +32,24 @@ Definition run_cases (f : sexp -> sexp -> verdict) (input : string) : string :=
         end) cases)
   end.
 
+(* a disagreement is reported as a 600-character window starting at the first differing character
+   (whole programs as messages overflow the native stack and are unreadable anyway) *)
+Fixpoint skip_common_b (a b : string) (off : N) : string * string * N :=
+  match a, b with
+  | String x a', String y b' => if Ascii.eqb x y then skip_common_b a' b' (off + 1)%N else (a, b, off)
+  | _, _ => (a, b, off)
+  end.
+Fixpoint take_str_b (n : nat) (s : string) : string :=
+  match n, s with
+  | S m, String c r => String c (take_str_b m r)
+  | _, _ => EmptyString
+  end.
+Definition diff_window_b (m r : string) : verdict :=
+  let '(a, b, off) := skip_common_b m r 0%N in
+  VDiff ("@" ++ n_to_string off ++ ":" ++ take_str_b 600 a) ("@" ++ n_to_string off ++ ":" ++ take_str_b 600 b).
 Definition cmp_sexp (model rust : sexp) : verdict :=
   let m := show model in let r := show rust in
-  if String.eqb m r then VOk "" else VDiff m r.
+  if String.eqb m r then VOk "" else diff_window_b m r.
 
 (* relay of verdicts computed on the harness side (process-level observations the model cannot make:
    fresh processes, native execution, crashes): (ok tag…) | (viol "what") | (skip "why") *)
